@@ -885,10 +885,13 @@ fn drive_pc(a: &Args, tr: &mut Tracer, per_subject: &mut serde_json::Map<String,
                     continue;
                 }
                 for step in 0..steps + 3 {
-                    let fi = rng.below(files.len() as u64) as usize;
+                    // step 5 of every run: the unaligned case on purpose - a 5-byte range that starts 2 bytes before a
+                    // page boundary is read (both pages cached), rewritten, invalidated BY RANGE and read again
+                    let force_spill = step == 5 && files[0].size >= 3 * p;
+                    let fi = if force_spill { 0 } else { rng.below(files.len() as u64) as usize };
                     let (fid, size) = (files[fi].fid, files[fi].size);
                     let f = fi + 1;
-                    let x = if step >= steps { [200, 201, 0][step - steps] } else { rng.below(100) };
+                    let x = if step >= steps { [200, 201, 0][step - steps] } else if force_spill { 58 } else { rng.below(100) };
                     let offs = [0, 1, p - 1, p, p + 1, 2 * p - 3, 3 * p - 1, size.saturating_sub(5), size.saturating_sub(1), size, size + 10, rng.below(size + 1), rng.below(size + 1)];
                     let r = guard(|| -> Vec<Value> {
                         match x {
@@ -915,12 +918,12 @@ fn drive_pc(a: &Args, tr: &mut Tracer, per_subject: &mut serde_json::Map<String,
                             58..=67 if size > 0 => {
                                 // the harness rewrites a byte range in place (same size), then usually invalidates it
                                 let ra = rng.below(size);
-                                let a0 = *rng.pick(&[0, p - 2, p, 2 * p - 1, ra]) % size;
-                                let l = *rng.pick(&[1u64, 5, p, p + 3, 2 * p, 40]);
+                                let a0 = if force_spill { p - 2 + (run as u64 % 2) * p } else { *rng.pick(&[0, p - 2, p, 2 * p - 1, ra]) % size };
+                                let l = if force_spill { 5 } else { *rng.pick(&[1u64, 5, p, p + 3, 2 * p, 40]) };
                                 let b0 = (a0 + l).min(size);
                                 // half of the time the range is read first (so that its pages are cached when the file
                                 // changes underneath) and read again right after the invalidation: the staleness clause
-                                let verify = rng.chance(1, 2) && budget > 2 * ((b0 - a0) as usize) + 64 && (b0 - a0) as usize <= 2 * PAGE_SIZE + 8;
+                                let verify = (force_spill || rng.chance(1, 2)) && budget > 2 * ((b0 - a0) as usize) + 64 && (b0 - a0) as usize <= 2 * PAGE_SIZE + 8;
                                 let mut pre: Vec<Value> = vec![];
                                 if verify {
                                     let len = (b0 - a0) as usize;
@@ -942,7 +945,7 @@ fn drive_pc(a: &Args, tr: &mut Tracer, per_subject: &mut serde_json::Map<String,
                                 let mut evs = pre;
                                 evs.push(json!({"op":"rewrite","f":f,"a":a0,"b":b0,"gen":gen}));
                                 let mut invalidated = true;
-                                match rng.below(10) {
+                                match if force_spill { 0 } else { rng.below(10) } {
                                     0..=5 => evs.push(json!({"op":"invalidate_range","f":f,"off":a0,"len":b0 - a0,"ok":pc.invalidate_range(fid, a0, (b0 - a0) as usize)})),
                                     6..=7 => {
                                         for pg in (a0 / p)..=((b0 - 1) / p) {
